@@ -75,6 +75,22 @@ theorem reduce_schedule_irrelevant {C σ : Type} [DecidableEq C] [Inhabited σ] 
     D.SimR (D.reduce cfg W d orderOf fuel first main last x) (D.reduce cfg W d' orderOf fuel first main last x) :=
   D.reduce_schedule_irrelevant cfg W d d' orderOf fuel first main last hg x
 
+/-- … and so is the sequence of accepted variants (the commit log), not only the final files -/
+theorem accepted_sequence_schedule_irrelevant {C σ : Type} [DecidableEq C] [Inhabited σ] [Inhabited C]
+    (cfg : D.Cfg) (W : D.World C) (d d' : D.Sched) (orderOf : List C → List Nat) (fuel : Nat)
+    (first main last : List (D.PassI C σ))
+    (hg : ∀ P, P ∈ first ∨ P ∈ main ∨ P ∈ last → D.GoodPass cfg W P) (x : D.St C) :
+    D.commits (D.LRes.st (D.reduce cfg W d orderOf fuel first main last x)).side.log =
+    D.commits (D.LRes.st (D.reduce cfg W d' orderOf fuel first main last x)).side.log ∧
+    (D.LRes.st (D.reduce cfg W d orderOf fuel first main last x)).disk =
+    (D.LRes.st (D.reduce cfg W d' orderOf fuel first main last x)).disk := by
+  have h := D.reduce_schedule_irrelevant cfg W d d' orderOf fuel first main last hg x
+  generalize D.reduce cfg W d orderOf fuel first main last x = r at h ⊢
+  generalize D.reduce cfg W d' orderOf fuel first main last x = r' at h ⊢
+  rcases r with ⟨a, n⟩ | ⟨e, a⟩ <;> rcases r' with ⟨b, m⟩ | ⟨e', b⟩ <;> simp only [D.SimR] at h
+  · exact ⟨h.1.2.2.2, h.1.1⟩
+  · exact ⟨h.2.2.2.2, h.2.1⟩
+
 -- non-vacuity: a verdict vector satisfying WB with a non-first winner
 example : WB (fun i => if i = 2 then Verdict.accept else if i < 2 then .ignore else .quit) := by
   constructor
